@@ -62,7 +62,13 @@ pub(crate) fn rename_positions(
         visitor.visit_toplevel_item(&item);
     }
 
-    Ok(visitor.replace_positions)
+    // Some symbols are visited more than once (a method's name, for
+    // example), so drop repeated positions.
+    let mut positions = visitor.replace_positions;
+    positions.sort_unstable_by_key(|pos| pos.start_offset);
+    positions.dedup_by_key(|pos| pos.start_offset);
+
+    Ok(positions)
 }
 
 struct RenameLocalVisitor {
